@@ -28,6 +28,9 @@ TermLevel(tab, n, withRecv) ==
    \cup UNION {{[k |-> "comb", a |-> a, b |-> b] : a \in tab[i], b \in tab[n - 1 - i]} : i \in 1..(n - 2)}
    \cup {[k |-> "for", c |-> c, p |-> p, body |-> b] : c \in Cs, p \in Ps, b \in tab[n - 1]}
    \cup {[k |-> "brk", body |-> b] : b \in tab[n - 1]}          \* seq.Breakable(body)
+   \* seq.ForPost(cond, post, body): the post statement is itself a Seq; it runs after the body completes
+   \* normally or by Continue
+   \cup UNION {{[k |-> "forpost", c |-> [id |-> 2], post |-> p, body |-> b] : p \in tab[i], b \in tab[n - 1 - i]} : i \in 1..(n - 2)}
 
 RECURSIVE BuildTerms(_, _, _)
 BuildTerms(tab, n, withRecv) ==
@@ -43,6 +46,7 @@ Spends(t) ==   \* every path through t spends budget, yields or returns
     [] t.k = "comb"  -> Spends(t.a)
     [] t.k = "for"   -> ~IsNone(t.c) \/ Spends(t.body)
     [] t.k = "brk"   -> Spends(t.body)
+    [] t.k = "forpost" -> TRUE      \* the condition reads the tape
     [] t.k = "sig"   -> t.t = "return"
 Guard(t) == Spends(t) \/ (t.k = "sig" /\ t.t = "break")
 WFThunk(f) == IF f.body.k = "ret" THEN WF(f.body.e) ELSE WF(f.body.a) /\ WF(f.body.b)
@@ -51,6 +55,7 @@ WF(t) ==
     [] t.k = "comb" -> WF(t.a) /\ WF(t.b)
     [] t.k = "for"  -> (~IsNone(t.c) \/ ~IsNone(t.p) \/ Guard(t.body)) /\ WF(t.body)
     [] t.k = "brk"  -> WF(t.body)
+    [] t.k = "forpost" -> WF(t.post) /\ WF(t.body)
     [] OTHER -> TRUE
 
 TermsUpTo(n, withRecv) ==
